@@ -47,6 +47,11 @@ CHECKS["C01"] = dict(
                "connections of every messaging transport, with the kernel boundary scripted to "
                "split, shorten and refuse reads and writes; every receive is compared with the "
                "ledger of accepted sends. Sampled, not exhaustive.",
+    level_text_extra="Shared data-path steps: a TLS handshake failing on another socket of the same thread; on tcp/btcp a "
+                     "scripted hard failure of send() (ENOBUFS, ENOMEM, ECONNRESET, ETIMEDOUT) after which the "
+                     "connection may be dead but a message whose xcm_send failed must never arrive; an orderly shutdown "
+                     "(everything received, xcm_finish == 0, xcm_close) after which everything that side had "
+                     "successfully sent must arrive; C03 also offers lengths beyond 32 bits.",
     level_note="Trusts the Linux loopback/AF_UNIX stack, OpenSSL, and the shim's soundness rules "
                "(only kernel-legal behaviours are injected).",
     rule=("plan = transport (ux, uxf, tcp, tls, utls via UX, utls client->tls server, tls "
@@ -75,6 +80,11 @@ CHECKS["C17"] = dict(
                "every step of generated histories on all nine transport configurations and "
                "compared with the ledger (exact equalities for from_app/to_app, inequalities, "
                "prefix sums for to_lower/from_lower, equality at quiescence). Sampled.",
+    level_text_extra="Shared data-path steps: a TLS handshake failing on another socket of the same thread; on tcp/btcp a "
+                     "scripted hard failure of send() (ENOBUFS, ENOMEM, ECONNRESET, ETIMEDOUT) after which the "
+                     "connection may be dead but a message whose xcm_send failed must never arrive; an orderly shutdown "
+                     "(everything received, xcm_finish == 0, xcm_close) after which everything that side had "
+                     "successfully sent must arrive; C03 also offers lengths beyond 32 bits.",
     level_note="Trusts the ledger kept by the harness (what xcm_send accepted and xcm_receive "
                "returned) and the shim's soundness rules.",
     rule=("plans as in C01/C02 on all transports incl. btcp/btls, with truncating receives, "
@@ -95,6 +105,11 @@ CHECKS["C02"] = dict(
     level_text="Generated send/receive interleavings on btcp and btls with every xcm_send return "
                "value recorded; the received concatenation must at every receive be a prefix of "
                "the accepted concatenation and equal after flush. Sampled.",
+    level_text_extra="Shared data-path steps: a TLS handshake failing on another socket of the same thread; on tcp/btcp a "
+                     "scripted hard failure of send() (ENOBUFS, ENOMEM, ECONNRESET, ETIMEDOUT) after which the "
+                     "connection may be dead but a message whose xcm_send failed must never arrive; an orderly shutdown "
+                     "(everything received, xcm_finish == 0, xcm_close) after which everything that side had "
+                     "successfully sent must arrive; C03 also offers lengths beyond 32 bits.",
     level_note="Trusts loopback TCP, OpenSSL record layer, shim soundness rules.",
     rule=("plan = btcp|btls, small buffers or not, up to 120 steps of send(len 1..200000)/"
           "receive(cap 1..70000)/finish/scripts/close. After a refused send the next buffer is "
@@ -116,6 +131,11 @@ CHECKS["C03"] = dict(
                "(blocking endpoints) interrupted by EINTR at the n-th internal wait; every failed "
                "send must leave counters untouched and never be delivered, re-sending must not "
                "duplicate, every accepted send must be delivered exactly once. Sampled.",
+    level_text_extra="Shared data-path steps: a TLS handshake failing on another socket of the same thread; on tcp/btcp a "
+                     "scripted hard failure of send() (ENOBUFS, ENOMEM, ECONNRESET, ETIMEDOUT) after which the "
+                     "connection may be dead but a message whose xcm_send failed must never arrive; an orderly shutdown "
+                     "(everything received, xcm_finish == 0, xcm_close) after which everything that side had "
+                     "successfully sent must arrive; C03 also offers lengths beyond 32 bits.",
     level_note="EINTR is injected at the poll() boundary by the shim (what a signal handler "
                "without SA_RESTART produces); real signal delivery is not used.",
     rule=("plans as C01/C02 plus invalid sizes {0,65536,65537,1 MiB,32 MiB}, one endpoint possibly "
@@ -139,6 +159,9 @@ CHECKS["C19"] = dict(
                "equality both ways, clones, add_all incl. self), and generated path strings judged "
                "by a reference grammar plus round-trip laws, all under ASan with exact-size "
                "caller buffers. Sampled.",
+    level_text_extra="Doubles include both zeros, infinities and NaNs with different payloads (byte-exact copies: a NaN "
+                     "equals itself, the two zeros differ); before an equality check a key of one map may be put into "
+                     "the other with one bit of its value changed (near miss).",
     level_note="Values passed back from the same key of the same map into add are excluded (the "
                "header says that pointer dies when the value changes). strtol leniencies inside "
                "[index] (sign, leading blanks) are unspecified.",
@@ -222,6 +245,9 @@ CHECKS["C06"] = dict(
                "with and without unread data. Failed establishment: connect() or the connect status probe "
                "fails with each errno after 0..5 in-progress answers, or the port is really closed, "
                "blocking and non-blocking. Scenarios are sampled.",
+    level_text_extra="Mode B, half of the cases: right after the peer's death the side under test does nothing but "
+                     "receive, and xcm_receive alone has to report the death within 180 ms. Once a close has been "
+                     "reported (receive returned 0, or a send/finish failed with EPIPE) every later receive must say 0.",
     level_note="The injected errno is returned by the interposed send()/recv()/connect()/SO_ERROR without "
                "touching the kernel; stickiness afterwards is XCM's own doing, which is what the property "
                "demands. After a real RST only membership in {ECONNRESET, EPIPE, (TLS) EPROTO} is demanded.",
@@ -310,6 +336,10 @@ CHECKS["C05"] = dict(
                "close); the rest are the C04 event-loop histories. The shim reports poll/ppoll/select/"
                "epoll_wait with a non-zero timeout, nanosleep/usleep/sleep, and connect/accept/send/recv on a "
                "socket without O_NONBLOCK. Each call must also return within 1 s.",
+    level_text_extra="One of the generated calls is xcm_set_blocking(true) with a signal pending (it may wait; EINTR is "
+                     "injected into its first wait): having failed, it must leave a non-blocking socket. The resolver "
+                     "stub presents a never-readable descriptor while a scripted query is pending (getsock / fds), as a "
+                     "real resolver waiting for its server would.",
     level_note="Reads of regular files (credentials) are not sleeping primitives. xcm_server is not in the "
                "property's list of calls.",
     rule=("Non-trivial = the calls were issued in a phase other than 'ready'."),
@@ -360,6 +390,8 @@ CHECKS["C11"] = dict(
                "descriptor. xcm.blocking=true with an unflushed message must flush like xcm_set_blocking. "
                "xcm_accept_a maps (TCP options, tls.check_time override) against server sockets with generated "
                "blocking mode / tls.check_time / tls.auth; xcm.service x every transport at creation. Sampled.",
+    level_text_extra="The accept map may carry xcm.blocking (true or false, agreeing or not with the server socket's "
+                     "mode); the accepted socket must be in that mode.",
     level_note="The kernel is trusted to report what was set. Blocking TLS accept is skipped (single-threaded).",
     rule=("case = one of: life of a connecting socket (70%), accept/inheritance (20%), service rules (10%). "
           "Non-trivial = a write was placed in the resolving or TCP-connecting phase, xcm.blocking was set with "
@@ -474,6 +506,10 @@ CHECKS["C09"] = dict(
                "intermediate, expired, or with zero revocations; by file or by value; tls, btls, utls->tls. "
                "Both sides run finish/send/receive to completion. Sampled (a quarter of the cells are steered "
                "into the definitely-valid class).",
+    level_text_extra="In half of the cells a lenient socket made from the same material is created first and kept alive "
+                     "(an xcm_accept_a on the same server socket overriding tls.check_time=false, or a connect-side "
+                     "socket configured like the judged client but with tls.check_time=false): policies are per socket "
+                     "although cached TLS contexts are shared.",
     level_note="Only facts generated by the harness are judged (no name constraints, policies, path lengths). "
                "TLS 1.3 lets a client become usable before the server has judged it: the oracle is per side.",
     rule=("Non-trivial = at least one side's policy is definitely not met, or an accept-time override changed the "
@@ -543,8 +579,11 @@ CHECKS["C15"] = dict(
                "including closing everything (pools torn down and rebuilt); hand-over of connections through a "
                "mutex-protected queue. All threads start at a barrier; generated yields. At a final barrier the "
                "number of control sockets must equal the number of open sockets (unique ids); afterwards "
-               "descriptors and control files are back to the start level. Schedules are perturbed, not owned: "
-               "silence is weak evidence.",
+               "descriptors and control files are back to the start level. One case in three begins with a first-use "
+               "probe: the harness binary is exec'ed afresh and 2-4 threads create that process's very first "
+               "sockets (tls / btls / utls servers, a tls connect, tcp, ux) at the same moment, under "
+               "ThreadSanitizer - whatever the library initialises lazily is initialised under contention. "
+               "Schedules are perturbed, not owned: silence is weak evidence.",
     level_note="A ThreadSanitizer report is taken as a violation without the usual three-fold replay (races are "
                "schedule-dependent; the detector does not depend on the race actually manifesting). Reports "
                "entirely inside libssl/libcrypto/libcares are suppressed.",
